@@ -156,3 +156,49 @@ Lemma dests_of_typed h i : typed h i ->
 Proof.
   intros [(m & l & Hm & Hl) _]. exists m, l. repeat split; try assumption. unfold dests_of. now rewrite Hm, Hl.
 Qed.
+
+(* ---------- Table(df, name=..., units=...) ---------- *)
+Lemma alloc_units_typed names : forall h units h' d,
+  wf_heap h -> alloc_units h names units = (h', d) -> wf_heap h' /\ ext h h' /\ acc_ok h' d.
+Proof.
+  induction names as [|n ns IH]; intros h units h' d W H; cbn [alloc_units] in H.
+  - inversion H; subst. repeat split; [assumption|apply ext_refl|intros ? ? []].
+  - destruct units as [|u us].
+    + inversion H; subst. repeat split; [assumption|apply ext_refl|intros ? ? []].
+    + set (o := OCm {| cm_unit := u; cm_display_unit := None; cm_format := None |}) in *.
+      destruct (alloc h o) as [h1 id] eqn:A.
+      destruct (alloc_units h1 ns us) as [h2 rest] eqn:R. inversion H; subst h' d. clear H.
+      assert (wf_heap h1) as W1 by (pose proof (wf_alloc h o W) as X; now rewrite A in X).
+      assert (ext h h1) as E1 by (pose proof (ext_alloc h o W) as X; now rewrite A in X).
+      assert (get h1 id = Some o) as G by (pose proof (get_alloc_new h o) as X; rewrite A in X; inversion A; subst; exact X).
+      destruct (IH h1 us h2 rest W1 R) as (W2 & E2 & A2).
+      repeat split; [assumption|eapply ext_trans; eauto|].
+      intros n' id' [Hin|Hin]; [|now apply (A2 n' id')].
+      inversion Hin; subst n' id'. destruct (E2 id _ G) as [c Hc]. exists c. unfold cm_of. now rewrite Hc.
+Qed.
+
+Theorem rewrap_typed h i nn nu h' r :
+  wf_heap h -> rewrap h i nn nu = (h', Some r) -> typed h' r.
+Proof.
+  intros W H. unfold rewrap in H. destruct (meta_of h i) as [m|]; [|discriminate].
+  set (os := OSet (dests_of h i)) in *.
+  destruct (alloc h os) as [h1 sid] eqn:A1.
+  set (om := OMeta {| tm_name := match nn with Some n => n | None => tm_name m end; tm_dests := sid;
+                      tm_origin := tm_origin m; tm_transposed := tm_transposed m; tm_strict := tm_strict m |}) in *.
+  destruct (alloc h1 om) as [h2 mid] eqn:A2.
+  destruct (alloc_units h2 (map fst (dict_of h i)) _) as [h3 d] eqn:AU.
+  destruct (alloc h3 (ODict d)) as [h4 did] eqn:A4. inversion H; subst h' r. clear H.
+  assert (wf_heap h1) as W1 by (pose proof (wf_alloc h os W) as X; now rewrite A1 in X).
+  assert (wf_heap h2) as W2 by (pose proof (wf_alloc h1 om W1) as X; now rewrite A2 in X).
+  destruct (alloc_units_typed _ _ _ _ _ W2 AU) as (W3 & E3 & A3).
+  assert (ext h3 h4) as E4 by (pose proof (ext_alloc h3 (ODict d) W3) as X; now rewrite A4 in X).
+  assert (get h1 sid = Some os) as Gs by (pose proof (get_alloc_new h os) as X; rewrite A1 in X; inversion A1; subst; exact X).
+  assert (get h2 sid = Some os) as Gs2 by (pose proof (ext_alloc h1 om W1 sid _ Gs) as X; rewrite A2 in X; exact X).
+  assert (get h2 mid = Some om) as Gm2 by (pose proof (get_alloc_new h1 om) as X; rewrite A2 in X; inversion A2; subst; exact X).
+  pose proof (E4 sid _ (E3 sid _ Gs2)) as Gs4. pose proof (E4 mid _ (E3 mid _ Gm2)) as Gm4. cbn in Gs4, Gm4.
+  split.
+  - eexists _, _. unfold meta_of. cbn [i_meta]. rewrite Gm4. split; [reflexivity|]. cbn [tm_dests]. exact Gs4.
+  - exists d. cbn [i_dict]. split.
+    + pose proof (get_alloc_new h3 (ODict d)) as X. rewrite A4 in X. inversion A4; subst. exact X.
+    + exact (acc_ok_ext _ _ _ E4 A3).
+Qed.
